@@ -194,7 +194,7 @@ Example pinset_example :
 Proof. repeat split; try discriminate. repeat constructor; simpl; intuition discriminate. Qed.
 
 (* ---------------- the run-time monitors of Model/C14_Check.v and the theorems above ---------------- *)
-(* For each case kind: (completeness) a case annotated with the model's own outputs raises no code, for every input admitted
+(* For each case kind: (completeness) a case annotated with the model's own outputs raises no code, for every input allowed
    by the stated guards - so an implementation that agrees with the model on an input satisfies every monitored clause on it,
    and no monitor can alarm on behaviour the model allows; (soundness) a case on which a monitor's code is absent satisfies
    the Prop-level clause the code stands for. Definitions of the model outputs and the Prop-level readings: Proofs/C14_Monitor.v. *)
